@@ -103,7 +103,8 @@ def inf_check(spec_kw, inst):
         ocp = spec.ocp
         x0, x1 = spec.sym["x"][0], spec.sym["x"][1]
         inert = unknown("ub", 1, 1)
-        ocp.subject_to(x0 + 0.5 * ocp.inf_der(x0) <= ocp.inf_inert(ca.MX(inert)), grid="inf")
+        dsym, isym = ocp.inf_der(x0), ocp.inf_inert(ca.MX(inert))
+        ocp.subject_to(x0 + 0.5 * dsym <= isym, grid="inf")
         ocp.subject_to(x1 * x0 <= 2.0, grid="inf")
         meth = spec.transcribe()
     finally:
@@ -137,6 +138,11 @@ def inf_check(spec_kw, inst):
                 nlp.prove_equal(base + ":ensures:inf_der-operand-is-derivative-per-unit-time" + tag, call["ops"][nx], dB)
                 nlp.prove_equal(base + ":ensures:inf_inert-operand-passed-through" + tag, call["ops"][nx + 1], ca.MX(inert))
                 c.prove(base + ":ensures:operand-kinds" + tag, call["kinds"] == ["spline4"] * nx + ["spline3", "value"])
+                # ... and every operand stands for ITS symbol of the constraint expression: the states, then the inf_der symbol,
+                # then the inf_inert symbol (the two lists handed to reinterpret_expr are aligned)
+                want_from = [x0, x1, dsym, isym]
+                ok = len(call["sym_from"]) == len(want_from) and all(ca.is_equal(ca.MX(a), ca.MX(b)) for a, b in zip(call["sym_from"], want_from))
+                (c.ok if ok else lambda n_, **kw_: c.fail(n_, "symbols %s are paired with operands of kinds %s" % ([str(a) for a in call["sym_from"]], call["kinds"])))(base + ":ensures:operands-paired-with-their-symbols" + tag, backend="z3")
 
 
 # ---------------------------------------------------------------------------------------------------------------
